@@ -196,3 +196,26 @@ package keygen
 //@   loop 8 invariant round.started && 0 <= j && j <= kgN(round) && fresh(Vc) && kgRow(round, Vc) && fresh(culprits) && modQ != nil && !fresh(modQ) && val(modQ) == secpN && bigXj == round.save.BigXj && len(bigXj) == kgN(round) && arr(bigXj) != arr(Vc) && wfIDs(round.Parameters.parties.partyIDs) && (forall k in 0..kgN(round) :: keyOf(round.Parameters.parties.partyIDs[k]) % secpN != 0)
 //@   loop 9 invariant round.started && 0 <= j && j < kgN(round) && 1 <= c && c <= round.Parameters.threshold + 1 && fresh(Vc) && kgRow(round, Vc) && fresh(culprits) && modQ != nil && !fresh(modQ) && val(modQ) == secpN && bigXj == round.save.BigXj && len(bigXj) == kgN(round) && arr(bigXj) != arr(Vc) && wfIDs(round.Parameters.parties.partyIDs) && (forall k in 0..kgN(round) :: keyOf(round.Parameters.parties.partyIDs[k]) % secpN != 0) && kj != nil && val(kj) == keyOf(Pj) && z != nil && val(z) >= 0 && val(z) % secpN != 0 && Pj != nil && Pj == round.Parameters.parties.partyIDs[j]
 //@   loop 9 invariant len(culprits) == 0 ==> (validPoint(BigXj) && BigXj.curve == round.Parameters.ec)
+
+// ----- round_1.go -----
+//@ func GeneratePreParamsWithContextAndRandom
+//@   trusted safe-prime and Paillier key generation (goroutines, context, timeouts): outside the generator subset
+//@   props C06 C19
+//@   ensures result1 != nil ==> result0 == nil
+//@   ensures result1 == nil ==> (result0 != nil && fresh(result0) && wfPreProof(result0) && honestPre(result0))
+
+//@ func (*base).getSSID
+//@   props C06 C12
+//@   requires round != nil && wfParams(round.Parameters) && okCurve(round.Parameters.ec) && wfIDs(round.Parameters.parties.partyIDs) && round.temp != nil && round.temp.ssidNonce != nil
+//@   requires [committee-size] len(round.Parameters.parties.partyIDs) <= 1024
+//@   ensures result1 == nil && !isnil(result0) && fresh(result0) && len(result0) <= 32 && cap(result0) == len(result0)
+
+//@ func (*round1).Start
+//@   deadpoints 2
+//@   note the error branch after getSSID is unreachable: this package's getSSID never fails
+//@   props C06 C03
+//@   requires round != nil && round.base != nil && ecKgWF(round)
+//@   requires [caller-config] round.Parameters.concurrency > 0 && round.Parameters.concurrency <= 1048576
+//@   requires [own-pre-parameters-honest] wfPreProof(round.save.LocalPreParams) ==> honestPre(round.save.LocalPreParams)
+//@   modifies *
+//@   ensures [C03.second-start-sends-nothing] old(round.started) ==> (result != nil && sent(old(round.out)) == old(sent(round.out)))
